@@ -74,6 +74,7 @@ pub mod points {
     pub const STORE_CQ_HEAD: u32 = 6;
     pub const STORE_BUF_RING_TAIL: u32 = 7;
     pub const POLLING_STATE: u32 = 8;
+    pub const FILL_SQE: u32 = 9;
 }
 
 static TABLE: AtomicPtr<Table> = AtomicPtr::new(ptr::null_mut());
